@@ -1403,7 +1403,18 @@ func (n *toDateEval) Eval(env Env) (types.Value, error) {
 	if err != nil {
 		return zeroValue(), err
 	}
-	return types.NewDatetimeFromMillis(lhs.Milliseconds() - (lhs.Milliseconds() % consts.MillisPerDay)), nil
+	// Floor to the start of the day: Go's % truncates toward zero, so for instants before the
+	// epoch the remainder is negative and has to be moved into [0, MillisPerDay).
+	ms := lhs.Milliseconds()
+	rem := ms % consts.MillisPerDay
+	if rem < 0 {
+		rem += consts.MillisPerDay
+	}
+	res, ok := checkedSubI64(types.Long(ms), types.Long(rem))
+	if !ok {
+		return zeroValue(), fmt.Errorf("%w while attempting to compute toDate", errOverflow)
+	}
+	return types.NewDatetimeFromMillis(int64(res)), nil
 }
 
 type toTimeEval struct {
@@ -1419,7 +1430,12 @@ func (n *toTimeEval) Eval(env Env) (types.Value, error) {
 	if err != nil {
 		return zeroValue(), err
 	}
-	return types.NewDurationFromMillis(lhs.Milliseconds() % consts.MillisPerDay), nil
+	// Time of day is the non-negative remainder (floor semantics), also for instants before the epoch.
+	rem := lhs.Milliseconds() % consts.MillisPerDay
+	if rem < 0 {
+		rem += consts.MillisPerDay
+	}
+	return types.NewDurationFromMillis(rem), nil
 }
 
 type toMillisecondsEval struct {
